@@ -230,6 +230,10 @@ func TestReplay_RejectedMultiOutputRegistrationIsAtomic(t *testing.T) {
 
 type rbMissing struct{ n int }
 type rbNeedsMissing struct{ m *rbMissing }
+type rbKeyedCtxIn struct {
+	In
+	Ctx context.Context `name:"audit"`
+}
 type rbOptIn struct {
 	In
 	M *rbMissing `optional:"true"`
@@ -258,6 +262,21 @@ func TestReplay_MissingDependencyAcceptedByBuild(t *testing.T) {
 			sc, _ := p.CreateScope(context.Background())
 			_, rerr := Resolve[*rbNeedsMissing](sc)
 			t.Errorf("REPLAY-CONFIRMED collection.doBuild#post[accepted_means_every_required_dependency_is_registered]: Build accepted a %v service whose required dependency *rbMissing is not registered; resolving it fails with: %v", lt, rerr)
+			p.Close()
+		}
+	}
+	// a built-in type requested under a key is not built in: resolution looks it up like any other keyed service
+	{
+		c := NewCollection()
+		if err := c.AddScoped(func(in rbKeyedCtxIn) *rbNeedsMissing { return &rbNeedsMissing{} }); err != nil {
+			t.Fatal(err)
+		}
+		if p, err := c.Build(); err == nil {
+			sc, _ := p.CreateScope(context.Background())
+			_, rerr := Resolve[*rbNeedsMissing](sc)
+			if rerr != nil {
+				t.Errorf("REPLAY-CONFIRMED collection.validateDependencies#post[accepted_means_registered]: Build accepted a service whose required dependency is context.Context under the key \"audit\" (nothing is registered under it); resolving it fails with: %v", rerr)
+			}
 			p.Close()
 		}
 	}
@@ -380,4 +399,74 @@ func boolInt(b bool) int {
 		return 1
 	}
 	return 0
+}
+
+type rbAliasA interface{ AliasA() }
+type rbAliasB interface{ AliasB() }
+type rbAliased struct {
+	n      int
+	closed int
+}
+
+func (*rbAliased) AliasA()        {}
+func (*rbAliased) AliasB()        {}
+func (r *rbAliased) Close() error { r.closed++; return nil }
+
+// collection.addService#post[outputs_of_one_registration_are_linked]: a service registered under several interface aliases is ONE
+// service: its constructor runs once per owner, every alias yields that instance, and it is disposed once.
+func TestReplay_AliasesShareOneInstance(t *testing.T) {
+	for _, lt := range []Lifetime{Singleton, Scoped} {
+		runs := 0
+		c := NewCollection()
+		ctor := func() *rbAliased { runs++; return &rbAliased{n: runs} }
+		var err error
+		if lt == Singleton {
+			err = c.AddSingleton(ctor, As[rbAliasA](), As[rbAliasB]())
+		} else {
+			err = c.AddScoped(ctor, As[rbAliasA](), As[rbAliasB]())
+		}
+		if err != nil {
+			t.Fatal(err)
+		}
+		p, err := c.Build()
+		if err != nil {
+			t.Fatal(err)
+		}
+		sc, _ := p.CreateScope(context.Background())
+		before := runs
+		a, aerr := Resolve[rbAliasA](sc)
+		b, berr := Resolve[rbAliasB](sc)
+		if aerr != nil || berr != nil {
+			t.Fatalf("%v %v", aerr, berr)
+		}
+		if any(a) != any(b) {
+			t.Errorf("REPLAY-CONFIRMED collection.addService#post[outputs_of_one_registration_are_linked]: %v service registered under two interface aliases: the aliases resolve to different instances (#%d and #%d)", lt, a.(*rbAliased).n, b.(*rbAliased).n)
+		}
+		want := before
+		if lt == Scoped {
+			want++
+		}
+		if runs != want {
+			t.Errorf("REPLAY-CONFIRMED collection.addService#post[outputs_of_one_registration_are_linked]: %v constructor behind two aliases ran %d times in total, want %d", lt, runs, want)
+		}
+		sc.Close()
+		p.Close()
+		if inst := a.(*rbAliased); inst.closed != 1 {
+			t.Errorf("REPLAY-CONFIRMED collection.addService#post[outputs_of_one_registration_are_linked]: %v instance behind two aliases was closed %d times, want 1", lt, inst.closed)
+		}
+	}
+	// an instance value under two aliases is closed once
+	v := &rbAliased{n: 9}
+	c := NewCollection()
+	if err := c.AddSingleton(v, As[rbAliasA](), As[rbAliasB]()); err != nil {
+		t.Fatal(err)
+	}
+	p, err := c.Build()
+	if err != nil {
+		t.Fatal(err)
+	}
+	p.Close()
+	if v.closed != 1 {
+		t.Errorf("REPLAY-CONFIRMED collection.addService#post[outputs_of_one_registration_are_linked]: instance value registered under two aliases was closed %d times, want 1", v.closed)
+	}
 }
